@@ -29,6 +29,7 @@ def check_loop(chk, inst, res, where, *, jaxpr=P("jaxpr"), eqns=None, const_wrap
     E = mk_elem(eqns)
     A = lambda n: ("attr", jaxpr, n)
     writes = [e for e in sm if is_env_method(e[2][0], "write")]
+    envs = {e[2][0][1] for e in writes}
     cw = [e for e in writes if e[2][1] == A("constvars")]
     iw = [e for e in writes if e[2][1] == A("invars")]
     ow = [e for e in writes if e[2][1] == ("attr", E, "outvars")]
@@ -71,7 +72,7 @@ def check_loop(chk, inst, res, where, *, jaxpr=P("jaxpr"), eqns=None, const_wrap
         okargs = okp and star is not None and is_t(star[1], "bin") and star[1][1] == "+" and star[1][2] == mk_proj(gbp, 0)
         inv = star[1][3] if okargs else None
         reads = [x for x in subterms(inv)] if inv is not None else []
-        okread = inv is not None and any(is_call(x, "safe_map") and len(x[2]) == 2 and is_env_method(x[2][0], "read") and x[2][1] == ("attr", E, "invars") for x in reads)
+        okread = inv is not None and any(is_call(x, "safe_map") and len(x[2]) == 2 and is_env_method(x[2][0], "read") and x[2][0][1] in envs and x[2][1] == ("attr", E, "invars") for x in reads)
         okkw = dict(leaf[3]).get("**") == mk_proj(gbp, 1)
         chk.require(okargs and okread and okkw, rule, f"{inst}/eqn-{kind}", f"{kind}: this equation's primitive on values read from this equation's invars with its params",
                     derived=show(leaf)[:260], expected="(subfuns + [env.read(v) for v in eqn.invars]) and **params, both from eqn.primitive.get_bind_params(eqn.params)", where=where)
@@ -81,6 +82,6 @@ def check_loop(chk, inst, res, where, *, jaxpr=P("jaxpr"), eqns=None, const_wrap
     if not final_read:
         return dict(outvals=outvals, leaves=leaves)
     ret = res.ret
-    okret = is_call(ret, "safe_map") and is_env_method(ret[2][0], "read") and ret[2][1] == A("outvars")
+    okret = is_call(ret, "safe_map") and is_env_method(ret[2][0], "read") and ret[2][0][1] in envs and len(envs) == 1 and ret[2][1] == A("outvars")
     chk.require(okret, rule, inst + "/outputs", "outputs read after the loop", derived=show(ret)[:160], expected="safe_map(env.read, jaxpr.outvars)", where=where)
     return dict(outvals=outvals, leaves=leaves)
